@@ -454,7 +454,7 @@ impl Check for C17 {
 	}
 	fn rule(&self) -> String {
 		"A (direct LFO vs LfoM, 12 updates per run): waveforms {sine, triangle, saw, pulse .25/.5} x frequency {0,.5,1,3,1/dt} x amplitude {1,-2,0} x offset {0,.5} x starting phase {0,pi/2,pi,3pi/2,5pi} x dt {1,3,8 frames @ 8 Hz} x 10 handle operations (none; instant/tweened set_frequency, set_amplitude, set_offset; set_phase below/above one turn; set_waveform) placed before update 0/3/7; thorough adds pulse .75/0/1, dt = 128/48000 s, frequencies {.01, 1.25/dt, 2.5}, amplitude .3, offset -1.5, phases {2pi, pi/3} and every PAIR of operations. \
-		 B (direct tweener vs TwM, 14 updates): initial {0,-1.5} x target {1,-2} x duration {0,.3,1,2.5 s} x 4 easings x immediate/delayed start x second set (none or at update 1/3 [thorough 2/5/8], instant or tweened) x dt. \
+		 B (direct tweener vs TwM, 14 updates): initial {0,-1.5} x target {1,-2} x duration {0,.3,1,2.5 s} x 4 easings x immediate/delayed start x second set (none or at update 1/3 [thorough 2/5/8], instant or tweened, to 0.25 or to the value held at that moment) x dt. \
 		 C (Mapping::map): input ranges {(0,1),(1,0),(-2,3),(10,-10)} x output ranges {(0,1),(5,-5),(-24,6)} x 7 easings x 11 inputs (before, at, inside, beyond the range) x {f64, Decibels, ClockSpeed, PlaybackRate, f64 through an LFO offset linked to a modulator value}. \
 		 D (chains through the renderer, 8 callbacks incl. partial chunks and two-chunk callbacks): target {sound, sub-track, main-track, effect volume; clock speed; LFO offset, amplitude, frequency; LFO -> sub-track volume} x internal buffer size {1,3,8} [thorough +5] x source {3 tweeners, 7 LFOs} x 7 mappings (inverted ranges, inputs outside the range, easings) x link {when built, set later instantly, set later with a tween, reader older than its source} x drop of an older modulator x drop of the source [thorough: several drop/link times]. \
 		 E (probe modulators that count updates and record what they read): ALL histories of the stated length over {add, drop oldest, drop newest, drop middle, callback of ibs+1 frames} + 2 callbacks, x internal buffer size; a probe sound and a probe main-track effect read every modulator in every chunk. \
@@ -674,7 +674,8 @@ fn fam_b(tier: Tier, dt: f64, ctx: &mut Ctx) {
 	let easings = [Easing::Linear, Easing::InPowi(2), Easing::OutPowf(0.5), Easing::InOutPowi(3)];
 	let durs = [0.0, 0.3, 1.0, 2.5];
 	// second set: (update index, target, duration)
-	let mut seconds: Vec<Option<(usize, f64, f64)>> = vec![None, Some((1, 0.25, 0.0)), Some((1, 0.25, 1.0)), Some((3, 0.25, 0.0)), Some((3, 0.25, 1.0))];
+	// (a NaN target stands for "the value the tweener has at that moment": the hold / cancel call)
+	let mut seconds: Vec<Option<(usize, f64, f64)>> = vec![None, Some((1, 0.25, 0.0)), Some((1, 0.25, 1.0)), Some((3, 0.25, 0.0)), Some((3, 0.25, 1.0)), Some((1, f64::NAN, 0.0)), Some((3, f64::NAN, 1.0))];
 	if tier == Tier::Thorough {
 		seconds.extend([Some((2, -3.0, 0.3)), Some((5, 1.0, 2.5)), Some((8, 0.25, 1.0))]);
 	}
@@ -714,8 +715,9 @@ fn fam_b(tier: Tier, dt: f64, ctx: &mut Ctx) {
 									}
 									if let Some((at, t2, d2)) = second {
 										if *at == k {
-											h.set(*t2, tween(*d2, Easing::Linear));
-											model.set(*t2, *d2, Easing::Linear, None);
+											let t2 = if t2.is_nan() { tw.value() } else { *t2 };
+											h.set(t2, tween(*d2, Easing::Linear));
+											model.set(t2, *d2, Easing::Linear, None);
 										}
 									}
 									tw.on_start_processing();
